@@ -403,6 +403,8 @@ const BATCH_SIZE: usize = size_of::<u64>();
 /// Given a pointer address and total byte count, computes the number of
 /// head bytes needed to reach 8-byte alignment, the number of aligned
 /// 8-byte chunks, and the number of remaining tail bytes.
+#[cfg_attr(kani, kani::requires(ptr_addr.checked_add(count).is_some()))]
+#[cfg_attr(kani, kani::ensures(|r| verif_kani::s_batch_partition(ptr_addr, count, *r)))]
 fn compute_batch_offsets(ptr_addr: usize, count: usize) -> (usize, usize, usize) {
     let misalign = ptr_addr % BATCH_SIZE;
     let head = if misalign == 0 {
